@@ -263,6 +263,12 @@ func mergeIPAMConfig(c any, o any, path tree.Path) (any, error) {
 			if err != nil {
 				return nil, err
 			}
+			if err := checkSubnet(left, path); err != nil {
+				return nil, err
+			}
+			if err := checkSubnet(right, path); err != nil {
+				return nil, err
+			}
 			if left["subnet"] != right["subnet"] {
 				// check if left is already in ipamConfigs, add it if not and continue with the next config
 				if !slices.ContainsFunc(ipamConfigs, func(a any) bool {
@@ -290,6 +296,16 @@ func mergeIPAMConfig(c any, o any, path tree.Path) (any, error) {
 		}
 	}
 	return ipamConfigs, nil
+}
+
+// checkSubnet makes sure the subnet used as key to match ipam configs can be compared
+func checkSubnet(config map[string]any, p tree.Path) error {
+	switch v := config["subnet"].(type) {
+	case nil, string:
+		return nil
+	default:
+		return fmt.Errorf("cannot override %s: unexpected subnet value %v", p, v)
+	}
 }
 
 func convertIntoMapping(a any, defaultValue map[string]any, p tree.Path) (map[string]any, error) {
